@@ -151,6 +151,14 @@ namespace logmessage::preprocessor {
         return output;
     }
 
+    std::string RecursiveMacro::formatMessage() const {
+        auto output = m_location.format();
+        output.append("Macro '"sv);
+        output.append(macroname);
+        output.append("' is used inside its own expansion."sv);
+        return output;
+    }
+
     std::string UnexpectedIfdef::formatMessage() const {
         auto output = m_location.format();
         const auto message = "Unexpected IFDEF. Already inside of a IFDEF or IFNDEF enclosure."sv;
